@@ -49,6 +49,19 @@ func c15Value(c *sim.Ctx, v uint32) *sim.Violation {
 	if uerr != nil || uv != v || uw != len(want) {
 		return sim.V(fmt.Sprintf("C15/unmarshal/width%d/wrong-value-or-width", wc), "in-memory decoder on %x (+2 trailing bytes): value %d width %d err %v; want value %d width %d", want, uv, uw, uerr, v, len(want))
 	}
+	// the receiver may already hold a value (a reused variable): it must not matter
+	init := uint32(1 + t.Int(268435455))
+	if pi := sim.Guard(func() { uv, uw, uerr = mq.VerifVbintUnmarshalInto(init, want) }); pi != nil || uerr != nil || uv != v || uw != len(want) {
+		return sim.V(fmt.Sprintf("C15/unmarshal/width%d/depends-on-receiver", wc), "in-memory decoder on %x into a receiver holding %d: value %d width %d err %v panic %v; want %d", want, init, uv, uw, uerr, pi, v)
+	}
+	{
+		var sv2 uint32
+		var sn2 int64
+		var serr2 error
+		if pi := sim.Guard(func() { sv2, sn2, serr2 = mq.VerifVbintReadFromInto(init, link.NewReader(c, want, link.Mode{})) }); pi != nil || serr2 != nil || sv2 != v || int(sn2) != len(want) {
+			return sim.V(fmt.Sprintf("C15/readfrom/width%d/depends-on-receiver", wc), "streaming decoder on %x into a receiver holding %d: value %d n %d err %v panic %v; want %d", want, init, sv2, sn2, serr2, pi, v)
+		}
+	}
 	// streaming decoder through the link
 	stream := append(append([]byte{}, want...), 0x7f, 0x80, 0x01)
 	e := t.Int(3)
